@@ -137,9 +137,11 @@ class SimAtomicData(AtomicData):
         self.fault_at = fault_at
         self.fired = fired
         self.calls = 0
+        self.by_name = {}
 
     def _enter(self, name, *key):
         self.calls += 1
+        self.by_name[name] = self.by_name.get(name, 0) + 1
         k = self.counter[0]
         self.counter[0] += 1
         kind = self.fault_at.pop(k, None)
@@ -200,3 +202,26 @@ class SimAtomicData(AtomicData):
 
     def free_free_gaunt_factor(self):
         return SimGaunt(1.1 * self._enter("free_free_gaunt_factor"))
+
+    # ---- line-shape data (round 8): provider-dependent, so that a line shape which keeps the data of a replaced
+    # provider is visible; looked up by the line-shape constructors, i.e. inside a model's cache fill
+    def zeeman_triplet_parameters(self, line):
+        c = self._enter("zeeman_triplet_parameters", self._el(line.element), line.charge, tuple(line.transition))
+        return (0.03 + 0.05 * c, 0.2 + 0.5 * c, 0.1 + 0.3 * c)
+
+    def stark_model_coefficients(self, line):
+        c = self._enter("stark_model_coefficients", self._el(line.element), line.charge, tuple(line.transition))
+        return (2e-3 + 1e-3 * c, 0.6 + 0.1 * c, 0.02 + 0.01 * c)
+
+    def zeeman_structure(self, line, b_field=None):
+        from cherab.core.atomic.zeeman import ZeemanStructure
+        from raysect.core.math.function.float import Arg1D, Constant1D
+        key = (self._el(line.element), line.charge, tuple(line.transition))
+        c = self._enter("zeeman_structure", *key)
+        w0 = 420.0 + 260.0 * (_u("wl", *key) - 0.5) + 0.45 * (self.param - 1.0)
+        d = 0.02 + 0.03 * c                                   # nm per tesla
+        b = Arg1D()
+        pi = [(Constant1D(w0), Constant1D(0.5)), (b * (0.3 * d) + w0, b * 0.05 + 0.25), (b * (-0.3 * d) + w0, Constant1D(0.25))]
+        sp = [(b * d + w0, Constant1D(0.7)), (b * (1.4 * d) + w0, b * 0.1 + 0.3)]
+        sm = [(b * (-d) + w0, Constant1D(0.7)), (b * (-1.4 * d) + w0, b * 0.1 + 0.3)]
+        return ZeemanStructure(pi, sp, sm)
